@@ -96,19 +96,19 @@ class Repeat(Expression):
 
     def parse(self, state: ParserState, pairs: list[Pair]) -> bool:
         children: list[Pair] = []
+        state.checkpoint()
+        matched = self.expression.parse(state, children)
 
-        while True:
-            state.checkpoint()
-            matched = self.expression.parse(state, children)
-
-            if not matched:
-                state.restore()
-                break
-
+        while matched:
             state.ok()
             pairs.extend(children)
             children.clear()
+            # Trivia is only kept if it is followed by another match.
+            state.checkpoint()
             state.parse_trivia(children)
+            matched = self.expression.parse(state, children)
+
+        state.restore()
 
         # Always succeed.
         return True
